@@ -10,7 +10,8 @@ RULE = ("python_version tuples (1-3 components; 2.x, 3.0-3.40, 4.x, boundary min
         "Linux (glibc) systems with many detected platforms, and its decomposition law on the real objects; "
         "non-trivial = a non-empty tag sequence; distinct by input")
 ASSUMPTIONS = [
-    "inputs are ASCII; Tag() lower-cases with str.lower(), modelled for ASCII only",
+    "Tag() lower-cases with str.lower(): the model uses the exact table (NamesX.lower_full, tied to the interpreter by C13's n.lower stream); the "
+    "free-threading test uses the exact Unicode digit class; both tables are generated from the interpreter running the check (harness/tables*.py)",
     "'no repeats in the inputs' is read on the Tag level: the ABI list and the platform list have no repeats AFTER lower-casing (Tag() lower-cases "
     "its parts, so 'P' and 'p' are the same platform), and no explicit ABI is a differently-cased spelling of abi3/none (the code removes / looks "
     "for the exact lower-case text): cpython_tags((3,9),['ABI3'],['p']) does repeat cp39-abi3-p (theorem C15_case_induced_repeats); judgement call, "
@@ -116,10 +117,12 @@ def streams(rng, tier):
     # case variants: the same ABI / platform spelled in two cases, upper-case abi3 / none, upper-case free-threaded ABIs
     for _ in range(400 if q else 8000):
         v = rand_pv(rng); nd = "".join(v.split(".")[:2])
-        pool = ["cp" + nd, "CP" + nd, "cp%st" % nd, "CP%sT" % nd, "Cp%sT" % nd, "abi3", "ABI3", "Abi3", "none", "NONE", "None", "foo", "FOO", "cp%sm" % nd]
+        pool = ["cp" + nd, "CP" + nd, "cp%st" % nd, "CP%sT" % nd, "Cp%sT" % nd, "abi3", "ABI3", "Abi3", "none", "NONE", "None", "foo", "FOO", "cp%sm" % nd,
+                "cp\u0663t", "cp%s\u0663t" % nd, "cp\u0663", "cp\uff13t", "\u212a", "k", "K", "cp%s\u212a" % nd, "cp%sk" % nd, "\u03a3", "a\u03a3", "\u0130x", "i\u0307x"]
         abis = rand_list(rng, pool, [1, 2, 2, 3, 4])
-        ps = rand_list(rng, ["p", "P", "linux_x86_64", "Linux_X86_64", "LINUX_X86_64", "any", "ANY", "Any", "q"], [1, 2, 3])
-        interp = rng.choice(["", "cp" + nd, "PY3", "Py" + nd, "py" + nd, "pp3", "PP3", "py" + v.split(".")[0] + "0"])
+        ps = rand_list(rng, ["p", "P", "linux_x86_64", "Linux_X86_64", "LINUX_X86_64", "any", "ANY", "Any", "q", "\u212a", "k", "K", "plat_\u212a", "plat_k",
+                             "\u0130", "i\u0307", "\u03a3\u03a3", "stra\u00dfe"], [1, 2, 3])
+        interp = rng.choice(["", "cp" + nd, "PY3", "Py" + nd, "py" + nd, "pp3", "PP3", "py" + v.split(".")[0] + "0", "\u212ay3"])
         out.append(Case("case-variants", "t.cpython", [v, enc_list(abis), enc_list(ps), rand_cfg(rng)]))
         out.append(Case("case-variants", "t.generic", [rng.choice(["pp39", "PP39"]), enc_list(abis), enc_list(ps)]))
         out.append(Case("law-shape", "law.t.shape", [v, enc_list(abis), enc_list(ps), interp], kind="law"))
